@@ -162,3 +162,656 @@ Proof.
   - unfold set_of_list. apply is_enabled_mask_of_list.
   - apply Hc.
 Qed.
+
+(* ==================================================================== part 2 *)
+(* the shared state: lists, channels, frames *)
+Close Scope Z_scope.
+Open Scope nat_scope.
+
+Lemma upd_length : forall A (l : list A) i x, length (upd l i x) = length l.
+Proof. induction l as [|h t IH]; intros [|i] x; cbn; auto. Qed.
+
+Lemma nth_error_upd : forall A (l : list A) i j x,
+  nth_error (upd l i x) j =
+  if Nat.eqb i j then match nth_error l j with Some _ => Some x | None => None end
+  else nth_error l j.
+Proof.
+  induction l as [|h t IH]; intros i j x.
+  - destruct i, j; cbn; try reflexivity; destruct (Nat.eqb i j); reflexivity.
+  - destruct i, j; cbn; try reflexivity. apply IH.
+Qed.
+
+Lemma nth_error_upd_same : forall A (l : list A) i x y,
+  nth_error l i = Some y -> nth_error (upd l i x) i = Some x.
+Proof. intros. rewrite nth_error_upd, Nat.eqb_refl, H. reflexivity. Qed.
+
+Lemma nth_error_upd_other : forall A (l : list A) i j x,
+  i <> j -> nth_error (upd l i x) j = nth_error l j.
+Proof. intros. rewrite nth_error_upd. apply Nat.eqb_neq in H. rewrite H. reflexivity. Qed.
+
+Lemma app_chan_length : forall f chs i, length (app_chan f chs i) = length chs.
+Proof. intros. unfold app_chan. destruct (nth_error chs i); [apply upd_length | reflexivity]. Qed.
+
+Lemma nth_error_app_chan : forall f chs i j,
+  nth_error (app_chan f chs i) j =
+  if Nat.eqb i j then option_map f (nth_error chs j) else nth_error chs j.
+Proof.
+  intros. unfold app_chan. destruct (nth_error chs i) eqn:E.
+  - rewrite nth_error_upd. destruct (Nat.eqb_spec i j); [subst; rewrite E|]; reflexivity.
+  - destruct (Nat.eqb_spec i j); [subst; rewrite E|]; reflexivity.
+Qed.
+
+Lemma drain_length : forall regs chs, length (drain regs chs) = length chs.
+Proof.
+  unfold drain. induction regs as [|r t IH]; intro chs; cbn [fold_left]; [reflexivity|].
+  rewrite IH. apply app_chan_length.
+Qed.
+
+(* ---- how a channel may change when somebody else than its receiver acts *)
+Definition chan_evol (x y : chan) : Prop :=
+  (notified x = true -> notified y = true) /\
+  (parked y = true -> parked x = true /\ wakes y = wakes x /\ notified y = notified x) /\
+  (parked y = false -> wakes y = wakes x + (if parked x then 1 else 0)).
+
+Lemma chan_evol_refl : forall x, chan_evol x x.
+Proof.
+  intro x. unfold chan_evol. repeat split; auto.
+  intro H. rewrite H. lia.
+Qed.
+
+Lemma chan_evol_trans : forall x y z, chan_evol x y -> chan_evol y z -> chan_evol x z.
+Proof.
+  intros x y z [A1 [A2 A3]] [B1 [B2 B3]]. unfold chan_evol. repeat split.
+  - auto.
+  - apply B2 in H. destruct H as [H _]. apply A2 in H. tauto.
+  - apply B2 in H. destruct H as [H [E _]]. apply A2 in H. destruct H as [_ [E' _]]. congruence.
+  - pose proof H as H'. apply B2 in H'. destruct H' as [H' [_ E]]. apply A2 in H'. destruct H' as [_ [_ E']]. congruence.
+  - intro H. specialize (B3 H). destruct (parked y) eqn:Py.
+    + destruct (A2 eq_refl) as [Px [E _]]. rewrite Px. lia.
+    + specialize (A3 eq_refl). lia.
+Qed.
+
+Lemma chan_evol_notify : forall x, chan_evol x (chan_notify x).
+Proof.
+  intro x. unfold chan_evol, chan_notify, chan_wake. cbn [parked notified wakes senders].
+  destruct (parked x) eqn:P; cbn [parked notified wakes senders]; repeat split; auto; try discriminate; try lia.
+Qed.
+
+Lemma chan_evol_clone : forall x, chan_evol x (chan_clone x).
+Proof.
+  intro x. unfold chan_evol, chan_clone. cbn [parked notified wakes senders].
+  repeat split; auto. intro H. rewrite H. lia.
+Qed.
+
+Lemma chan_evol_drop : forall x, chan_evol x (chan_drop x).
+Proof.
+  intro x. unfold chan_evol, chan_drop, chan_wake. cbn [parked notified wakes senders].
+  destruct (Nat.eqb (pred (senders x)) 0); cbn [parked notified wakes senders].
+  - destruct (parked x) eqn:P; cbn [parked notified wakes senders]; repeat split; auto; try discriminate; try lia.
+  - repeat split; auto. intro H. rewrite H. lia.
+Qed.
+
+Lemma chan_evol_fire : forall x, chan_evol x (chan_fire x).
+Proof.
+  intro x. unfold chan_fire. eapply chan_evol_trans; [apply chan_evol_notify | apply chan_evol_drop].
+Qed.
+
+Lemma chan_fire_notified : forall x, notified (chan_fire x) = true.
+Proof.
+  intro x. destruct (chan_evol_drop (chan_notify x)) as [H _]. apply H.
+  unfold chan_notify, chan_wake. cbn [parked notified wakes senders].
+  destruct (parked x); reflexivity.
+Qed.
+
+(* parked receivers are not notified *)
+Definition chan_ok (x : chan) : Prop := parked x = true -> notified x = false.
+
+Lemma chan_evol_ok : forall x y, chan_evol x y -> chan_ok x -> chan_ok y.
+Proof.
+  intros x y [_ [A _]] Hx Hy. destruct (A Hy) as [Px [_ E]]. rewrite E. apply Hx, Px.
+Qed.
+
+Lemma chan_poll_ok : forall x, chan_ok x -> chan_ok (fst (chan_poll x)).
+Proof.
+  intros x Hx. unfold chan_poll. destruct (notified x) eqn:N; cbn [fst].
+  - intro H. reflexivity.
+  - destruct (Nat.eqb (senders x) 0); cbn [fst]; [exact Hx | intro; reflexivity].
+Qed.
+
+(* every channel but [ex] evolves; new channels may be appended *)
+Definition chans_evol (ex : option nat) (chs chs' : list chan) : Prop :=
+  forall j x, Some j <> ex -> nth_error chs j = Some x ->
+              exists y, nth_error chs' j = Some y /\ chan_evol x y.
+
+Lemma chans_evol_refl : forall ex chs, chans_evol ex chs chs.
+Proof. intros ex chs j x _ H. exists x. split; [assumption | apply chan_evol_refl]. Qed.
+
+Lemma chans_evol_trans : forall ex a b c,
+  chans_evol ex a b -> chans_evol ex b c -> chans_evol ex a c.
+Proof.
+  intros ex a b c H1 H2 j x Hj Hx.
+  destruct (H1 j x Hj Hx) as [y [Hy E1]]. destruct (H2 j y Hj Hy) as [z [Hz E2]].
+  exists z. split; [assumption | eapply chan_evol_trans; eassumption].
+Qed.
+
+Lemma chans_evol_weaken : forall ex a b, chans_evol None a b -> chans_evol ex a b.
+Proof. intros ex a b H j x _ Hx. apply H; [discriminate | assumption]. Qed.
+
+Lemma chans_evol_app_chan : forall f chs i,
+  (forall x, chan_evol x (f x)) -> chans_evol None chs (app_chan f chs i).
+Proof.
+  intros f chs i Hf j x _ Hx. rewrite nth_error_app_chan, Hx.
+  destruct (Nat.eqb i j); cbn [option_map]; eexists; split; try reflexivity.
+  - apply Hf.
+  - apply chan_evol_refl.
+Qed.
+
+Lemma chans_evol_drain : forall regs chs, chans_evol None chs (drain regs chs).
+Proof.
+  unfold drain. induction regs as [|r t IH]; intro chs; cbn [fold_left].
+  - apply chans_evol_refl.
+  - eapply chans_evol_trans; [apply chans_evol_app_chan, chan_evol_fire | apply IH].
+Qed.
+
+Lemma chans_evol_app : forall chs l, chans_evol None chs (chs ++ l).
+Proof.
+  intros chs l j x _ Hx. exists x. split; [|apply chan_evol_refl].
+  rewrite nth_error_app1; [assumption|]. apply nth_error_Some. congruence.
+Qed.
+
+Lemma chans_evol_upd_ex : forall chs i x, chans_evol (Some i) chs (upd chs i x).
+Proof.
+  intros chs i x j y Hj Hy. exists y. split; [|apply chan_evol_refl].
+  rewrite nth_error_upd_other; [assumption | congruence].
+Qed.
+
+Lemma drain_notified : forall regs chs ch x,
+  In ch regs -> nth_error chs ch = Some x ->
+  exists y, nth_error (drain regs chs) ch = Some y /\ notified y = true.
+Proof.
+  unfold drain. induction regs as [|r t IH]; intros chs ch x Hin Hx; [destruct Hin|].
+  cbn [fold_left]. destruct (Nat.eq_dec r ch) as [->|Hne].
+  - assert (H1 : nth_error (app_chan chan_fire chs ch) ch = Some (chan_fire x)).
+    { rewrite nth_error_app_chan, Nat.eqb_refl, Hx. reflexivity. }
+    destruct (chans_evol_drain t _ ch _ ltac:(discriminate) H1) as [y [Hy [E _]]].
+    exists y. split; [exact Hy | apply E, chan_fire_notified].
+  - destruct Hin as [->|Hin]; [congruence|].
+    assert (H1 : nth_error (app_chan chan_fire chs r) ch = Some x).
+    { rewrite nth_error_app_chan. apply Nat.eqb_neq in Hne. rewrite Hne. exact Hx. }
+    exact (IH _ _ _ Hin H1).
+Qed.
+
+(* ---- the shared state *)
+Definition notif (s : sys) (ch : nat) : bool :=
+  match nth_error (chans s) ch with Some x => notified x | None => false end.
+
+(* channel ch has a sender registered on condition c (vacuous if there is no c) *)
+Definition regd (s : sys) (c ch : nat) : Prop :=
+  forall cd, nth_error (conds s) c = Some cd -> In ch (c_registered cd).
+
+(* THE invariant of finding D6: registered senders imply trigger value false *)
+Definition cond_inv (s : sys) : Prop :=
+  forall c cd, nth_error (conds s) c = Some cd -> c_registered cd <> [] -> cond_trigger cd = false.
+
+Definition chans_ok (s : sys) : Prop :=
+  forall ch x, nth_error (chans s) ch = Some x -> chan_ok x.
+
+Definition sys_frame (ex : option nat) (s s' : sys) : Prop :=
+  chans_evol ex (chans s) (chans s') /\
+  length (conds s') = length (conds s) /\
+  (forall c ch, Some ch <> ex -> ch < length (chans s) ->
+                regd s c ch -> regd s' c ch \/ notif s' ch = true).
+
+Lemma chans_evol_lt : forall ex a b ch, chans_evol ex a b -> Some ch <> ex -> ch < length a -> ch < length b.
+Proof.
+  intros ex a b ch H Hne Hlt. destruct (nth_error a ch) eqn:E.
+  - destruct (H ch c Hne E) as [y [Hy _]]. apply nth_error_Some. congruence.
+  - apply nth_error_None in E. lia.
+Qed.
+
+Lemma chans_evol_notif : forall ex s s' ch,
+  chans_evol ex (chans s) (chans s') -> Some ch <> ex -> notif s ch = true -> notif s' ch = true.
+Proof.
+  intros ex s s' ch H Hne Hn. unfold notif in *. destruct (nth_error (chans s) ch) eqn:E; [|discriminate].
+  destruct (H ch c Hne E) as [y [Hy [A _]]]. rewrite Hy. auto.
+Qed.
+
+Lemma sys_frame_refl : forall ex s, sys_frame ex s s.
+Proof. intros. split; [apply chans_evol_refl | split; [reflexivity | auto]]. Qed.
+
+Lemma sys_frame_trans : forall ex a b c, sys_frame ex a b -> sys_frame ex b c -> sys_frame ex a c.
+Proof.
+  intros ex a b c [A1 [A2 A3]] [B1 [B2 B3]]. split; [eapply chans_evol_trans; eassumption|].
+  split; [congruence|]. intros k ch Hne Hlt Hr.
+  destruct (A3 k ch Hne Hlt Hr) as [H|H].
+  - apply B3; auto. eapply chans_evol_lt; eassumption.
+  - right. eapply chans_evol_notif; eassumption.
+Qed.
+
+Lemma sys_frame_weaken : forall ex a b, sys_frame None a b -> sys_frame ex a b.
+Proof.
+  intros ex a b [A1 [A2 A3]]. split; [apply chans_evol_weaken; assumption|].
+  split; [assumption|]. intros. apply A3; auto. discriminate.
+Qed.
+
+(* a step that leaves the conditions alone *)
+Lemma sys_frame_chans : forall ex s chs',
+  chans_evol ex (chans s) chs' -> sys_frame ex s (mkSys (conds s) chs').
+Proof. intros. split; [assumption | split; [reflexivity | auto]]. Qed.
+
+Lemma with_cond_cases : forall s c f (P : sys -> Prop),
+  (nth_error (conds s) c = None -> P s) ->
+  (forall cd, nth_error (conds s) c = Some cd -> P (f cd)) ->
+  P (with_cond s c f).
+Proof. intros. unfold with_cond. destruct (nth_error (conds s) c); auto. Qed.
+
+Lemma regd_upd_other : forall s c c' ch cd' chs',
+  c <> c' -> regd s c ch -> regd (mkSys (upd (conds s) c' cd') chs') c ch.
+Proof.
+  intros s c c' ch cd' chs' Hne H cd. cbn [conds]. rewrite nth_error_upd_other by congruence. apply H.
+Qed.
+
+Lemma regd_upd_same : forall s c ch cd cd' chs',
+  nth_error (conds s) c = Some cd -> In ch (c_registered cd') ->
+  regd (mkSys (upd (conds s) c cd') chs') c ch.
+Proof.
+  intros s c ch cd cd' chs' Hc Hin x. cbn [conds]. rewrite (nth_error_upd_same _ _ _ _ _ Hc).
+  intro E. injection E as <-. assumption.
+Qed.
+
+(* a condition is replaced by one with the same registered senders *)
+Lemma sys_frame_upd_keep : forall s c cd cd',
+  nth_error (conds s) c = Some cd -> c_registered cd' = c_registered cd ->
+  sys_frame None s (mkSys (upd (conds s) c cd') (chans s)).
+Proof.
+  intros s c cd cd' Hc Hr. split; [apply chans_evol_refl|]. split; [apply upd_length|].
+  intros k ch _ _ Hk. left. destruct (Nat.eq_dec k c) as [->|Hne].
+  - eapply regd_upd_same; [eassumption|]. rewrite Hr. apply Hk, Hc.
+  - apply regd_upd_other; assumption.
+Qed.
+
+(* a condition fires: its senders are drained and notified *)
+Lemma sys_frame_fire : forall s c cd cd',
+  nth_error (conds s) c = Some cd ->
+  sys_frame None s (mkSys (upd (conds s) c cd') (drain (c_registered cd) (chans s))).
+Proof.
+  intros s c cd cd' Hc. split; [apply chans_evol_drain|]. split; [apply upd_length|].
+  intros k ch _ Hlt Hk. destruct (Nat.eq_dec k c) as [->|Hne].
+  - right. specialize (Hk _ Hc).
+    destruct (nth_error (chans s) ch) eqn:E; [|apply nth_error_None in E; lia].
+    destruct (drain_notified _ _ _ _ Hk E) as [y [Hy Hn]].
+    unfold notif. cbn [chans]. rewrite Hy. exact Hn.
+  - left. apply regd_upd_other; assumption.
+Qed.
+
+Lemma sys_add_frame : forall s c k, sys_frame None s (sys_add s c k).
+Proof.
+  intros s c k. unfold sys_add. apply with_cond_cases; [intros; apply sys_frame_refl|].
+  intros cd Hc. cbn [c_enabled c_changes c_registered].
+  destruct (cond_trigger _).
+  - apply sys_frame_fire; assumption.
+  - eapply sys_frame_upd_keep; [eassumption | reflexivity].
+Qed.
+
+Lemma sys_remove_frame : forall s c k, sys_frame None s (sys_remove s c k).
+Proof.
+  intros s c k. unfold sys_remove. apply with_cond_cases; [intros; apply sys_frame_refl|].
+  intros cd Hc. eapply sys_frame_upd_keep; [eassumption | reflexivity].
+Qed.
+
+Lemma sys_set_enabled_frame : forall fx s c m, sys_frame None s (sys_set_enabled fx s c m).
+Proof.
+  intros fx s c m. unfold sys_set_enabled. apply with_cond_cases; [intros; apply sys_frame_refl|].
+  intros cd Hc. cbn [c_enabled c_changes c_registered].
+  destruct (fx && cond_trigger _).
+  - apply sys_frame_fire; assumption.
+  - eapply sys_frame_upd_keep; [eassumption | reflexivity].
+Qed.
+
+Lemma sys_register_frame : forall s c ch, sys_frame None s (sys_register s c ch).
+Proof.
+  intros s c ch. unfold sys_register. apply with_cond_cases; [intros; apply sys_frame_refl|].
+  intros cd Hc. destruct (cond_trigger cd).
+  - apply sys_frame_chans. cbn [chans].
+    eapply chans_evol_trans; apply chans_evol_app_chan; [apply chan_evol_clone | apply chan_evol_fire].
+  - split; [apply chans_evol_app_chan, chan_evol_clone|]. split; [apply upd_length|].
+    intros k j _ _ Hk. left. destruct (Nat.eq_dec k c) as [->|Hne].
+    + eapply regd_upd_same; [eassumption|]. cbn [c_registered]. apply in_or_app. left. apply Hk, Hc.
+    + apply regd_upd_other; assumption.
+Qed.
+
+Lemma sys_poll_frame : forall s ch, sys_frame (Some ch) s (fst (sys_poll s ch)).
+Proof.
+  intros s ch. unfold sys_poll. destruct (nth_error (chans s) ch) eqn:E; [|apply sys_frame_refl].
+  destruct (chan_poll c) as [x' o]. cbn [fst]. apply sys_frame_chans. apply chans_evol_upd_ex.
+Qed.
+
+Lemma sys_drop_frame : forall s ch, sys_frame None s (sys_drop s ch).
+Proof.
+  intros. unfold sys_drop. apply sys_frame_chans. apply chans_evol_app_chan, chan_evol_drop.
+Qed.
+
+Lemma sys_newchan_frame : forall s, sys_frame None s (mkSys (conds s) (chans s ++ [chan_new])).
+Proof. intros. apply sys_frame_chans. apply chans_evol_app. Qed.
+
+(* ---- cond_inv under each operation *)
+Lemma cond_inv_same_conds : forall s s', conds s' = conds s -> cond_inv s -> cond_inv s'.
+Proof. intros s s' E H c cd. rewrite E. apply H. Qed.
+
+Lemma cond_inv_upd : forall s c cd' chs',
+  cond_inv s -> (c_registered cd' <> [] -> cond_trigger cd' = false) ->
+  cond_inv (mkSys (upd (conds s) c cd') chs').
+Proof.
+  intros s c cd' chs' H Hcd k cd. cbn [conds]. rewrite nth_error_upd.
+  destruct (Nat.eqb c k).
+  - destruct (nth_error (conds s) k); [|discriminate]. intro E. injection E as <-. exact Hcd.
+  - apply H.
+Qed.
+
+Lemma sys_add_inv : forall s c k, cond_inv s -> cond_inv (sys_add s c k).
+Proof.
+  intros s c k H. unfold sys_add. apply with_cond_cases; [intros; assumption|].
+  intros cd Hc. cbn [c_enabled c_changes c_registered].
+  destruct (cond_trigger _) eqn:T; apply cond_inv_upd; try assumption; cbn [c_registered].
+  - intro X. contradiction.
+  - intros _. exact T.
+Qed.
+
+Lemma trigger_loop_filter : forall m f l,
+  trigger_loop m (filter f l) = true -> trigger_loop m l = true.
+Proof.
+  intros m f l. rewrite !trigger_loop_existsb, !existsb_exists.
+  intros [k [Hin He]]. apply filter_In in Hin. exists k. tauto.
+Qed.
+
+Lemma sys_remove_inv : forall s c k, cond_inv s -> cond_inv (sys_remove s c k).
+Proof.
+  intros s c k H. unfold sys_remove. apply with_cond_cases; [intros; assumption|].
+  intros cd Hc. apply cond_inv_upd; [assumption|]. cbn [c_registered]. intro Hr.
+  specialize (H _ _ Hc Hr). unfold cond_trigger in *. cbn [c_enabled c_changes].
+  destruct (trigger_loop (c_enabled cd) (filter _ (c_changes cd))) eqn:T; [|reflexivity].
+  apply trigger_loop_filter in T. congruence.
+Qed.
+
+Lemma sys_set_enabled_inv : forall fx s c m,
+  sys_d6 fx s c m = false -> cond_inv s -> cond_inv (sys_set_enabled fx s c m).
+Proof.
+  intros fx s c m Hd H. unfold sys_set_enabled. apply with_cond_cases; [intros; assumption|].
+  intros cd Hc. unfold sys_d6 in Hd. rewrite Hc in Hd.
+  unfold cond_trigger at 1. cbn [c_enabled c_changes c_registered].
+  destruct fx; cbn [negb andb] in *.
+  - destruct (trigger_loop m (c_changes cd)) eqn:T; apply cond_inv_upd; try assumption; cbn [c_registered].
+    + intro X. contradiction.
+    + intros _. exact T.
+  - apply cond_inv_upd; [assumption|]. cbn [c_registered]. unfold cond_trigger. cbn [c_enabled c_changes].
+    destruct (c_registered cd); [intro X; contradiction | intros _; exact Hd].
+Qed.
+
+Lemma sys_register_inv : forall s c ch, cond_inv s -> cond_inv (sys_register s c ch).
+Proof.
+  intros s c ch H. unfold sys_register. apply with_cond_cases; [intros; assumption|].
+  intros cd Hc. destruct (cond_trigger cd) eqn:T.
+  - eapply cond_inv_same_conds; [|eassumption]. reflexivity.
+  - apply cond_inv_upd; [assumption|]. intros _. exact T.
+Qed.
+
+(* ---- chans_ok under each operation *)
+Lemma chans_ok_evol : forall s s',
+  chans_evol None (chans s) (chans s') -> length (chans s') = length (chans s) ->
+  chans_ok s -> chans_ok s'.
+Proof.
+  intros s s' He Hl H ch y Hy.
+  destruct (nth_error (chans s) ch) eqn:E.
+  - destruct (He ch c ltac:(discriminate) E) as [y' [Hy' Hev]].
+    assert (y' = y) by congruence. subst. eapply chan_evol_ok; [eassumption | eapply H; eassumption].
+  - apply nth_error_None in E. assert (ch < length (chans s')) by (apply nth_error_Some; congruence). lia.
+Qed.
+
+Lemma sys_add_chans_ok : forall s c k, chans_ok s -> chans_ok (sys_add s c k).
+Proof.
+  intros s c k. unfold sys_add. apply with_cond_cases; [auto|]. intros cd Hc.
+  destruct (cond_trigger _); [|auto].
+  apply chans_ok_evol; cbn [chans]; [apply chans_evol_drain | apply drain_length].
+Qed.
+
+Lemma sys_remove_chans_ok : forall s c k, chans_ok s -> chans_ok (sys_remove s c k).
+Proof. intros s c k. unfold sys_remove. apply with_cond_cases; auto. Qed.
+
+Lemma sys_set_enabled_chans_ok : forall fx s c m, chans_ok s -> chans_ok (sys_set_enabled fx s c m).
+Proof.
+  intros fx s c m. unfold sys_set_enabled. apply with_cond_cases; [auto|]. intros cd Hc.
+  destruct (fx && cond_trigger _); [|auto].
+  apply chans_ok_evol; cbn [chans]; [apply chans_evol_drain | apply drain_length].
+Qed.
+
+Lemma sys_register_chans_ok : forall s c ch, chans_ok s -> chans_ok (sys_register s c ch).
+Proof.
+  intros s c ch. unfold sys_register. apply with_cond_cases; [auto|]. intros cd Hc.
+  destruct (cond_trigger cd); apply chans_ok_evol; cbn [chans].
+  - eapply chans_evol_trans; apply chans_evol_app_chan; [apply chan_evol_clone | apply chan_evol_fire].
+  - rewrite !app_chan_length. reflexivity.
+  - apply chans_evol_app_chan, chan_evol_clone.
+  - apply app_chan_length.
+Qed.
+
+Lemma sys_drop_chans_ok : forall s ch, chans_ok s -> chans_ok (sys_drop s ch).
+Proof.
+  intros s ch. apply chans_ok_evol; cbn [chans sys_drop].
+  - apply chans_evol_app_chan, chan_evol_drop.
+  - apply app_chan_length.
+Qed.
+
+Lemma sys_poll_chans_ok : forall s ch, chans_ok s -> chans_ok (fst (sys_poll s ch)).
+Proof.
+  intros s ch H. unfold sys_poll. destruct (nth_error (chans s) ch) eqn:E; [|exact H].
+  destruct (chan_poll c) as [x' o] eqn:P. cbn [fst]. intros j y. cbn [chans].
+  rewrite nth_error_upd. destruct (Nat.eqb ch j).
+  - destruct (nth_error (chans s) j); [|discriminate]. intro X. injection X as <-.
+    replace x' with (fst (chan_poll c)) by (rewrite P; reflexivity).
+    apply chan_poll_ok. eapply H; eassumption.
+  - apply H.
+Qed.
+
+Lemma sys_newchan_chans_ok : forall s, chans_ok s -> chans_ok (mkSys (conds s) (chans s ++ [chan_new])).
+Proof.
+  intros s H j y. cbn [chans]. intro Hy.
+  destruct (Nat.lt_ge_cases j (length (chans s))).
+  - rewrite nth_error_app1 in Hy by assumption. eapply H; eassumption.
+  - rewrite nth_error_app2 in Hy by assumption.
+    destruct (j - length (chans s)); cbn in Hy; [injection Hy as <-; intro X; discriminate|].
+    destruct n; discriminate.
+Qed.
+
+Lemma sys_init_cond_inv : forall nc nch, cond_inv (sys_init nc nch).
+Proof.
+  intros nc nch c cd H. cbn [sys_init conds] in H.
+  apply nth_error_In, repeat_spec in H. subst. intro X. contradiction X. reflexivity.
+Qed.
+
+Lemma sys_init_chans_ok : forall nc nch, chans_ok (sys_init nc nch).
+Proof.
+  intros nc nch ch x H. cbn [sys_init chans] in H.
+  apply nth_error_In, repeat_spec in H. subst. intro X. discriminate.
+Qed.
+
+(* ---- the fields of every condition represent the history *)
+Definition repr_all (s : sys) (en chg : nat -> StatusKind -> bool) : Prop :=
+  forall c cd, nth_error (conds s) c = Some cd -> cond_repr cd (en c) (chg c).
+
+Lemma repr_all_upd : forall s c cd cd' chs' (en chg en2 chg2 : nat -> StatusKind -> bool),
+  repr_all s en chg -> nth_error (conds s) c = Some cd ->
+  cond_repr cd' (en2 c) (chg2 c) ->
+  (forall x, x <> c -> en2 x = en x /\ chg2 x = chg x) ->
+  repr_all (mkSys (upd (conds s) c cd') chs') en2 chg2.
+Proof.
+  intros s c cd cd' chs' en chg en2 chg2 H Hc Hr Ho x y. cbn [conds].
+  rewrite nth_error_upd. destruct (Nat.eqb_spec c x) as [->|Hne].
+  - rewrite Hc. intro E. injection E as <-. exact Hr.
+  - intro Hy. destruct (Ho x ltac:(congruence)) as [-> ->]. apply H. exact Hy.
+Qed.
+
+Lemma repr_all_ext : forall s s' (en chg en2 chg2 : nat -> StatusKind -> bool),
+  repr_all s en chg -> conds s' = conds s ->
+  (forall x, en2 x = en x /\ chg2 x = chg x) -> repr_all s' en2 chg2.
+Proof.
+  intros s s' en chg en2 chg2 H E Ho x y. rewrite E. intro Hy.
+  destruct (Ho x) as [-> ->]. apply H. exact Hy.
+Qed.
+
+Lemma cond_repr_regs : forall cd en ch r,
+  cond_repr cd en ch -> cond_repr (mkCond (c_enabled cd) (c_changes cd) r) en ch.
+Proof. intros cd en ch r H. exact H. Qed.
+
+Lemma sys_add_repr : forall s c k en chg,
+  repr_all s en chg ->
+  repr_all (sys_add s c k) (fun x => en_step x (en x) (EAdd c k)) (fun x => chg_step x (chg x) (EAdd c k)).
+Proof.
+  intros s c k en chg H. unfold sys_add. apply with_cond_cases.
+  - intros Hn x y Hy. cbn [en_step chg_step]. destruct (Nat.eqb_spec c x) as [->|_]; [congruence|]. apply H, Hy.
+  - intros cd Hc. cbn [c_enabled c_changes c_registered].
+    assert (R : forall r, cond_repr (mkCond (c_enabled cd) (c_changes cd ++ [k]) r) (en c) (set_add (chg c) k))
+      by (intro r; apply cond_repr_add, H, Hc).
+    destruct (cond_trigger _); eapply repr_all_upd; try eassumption; cbn [en_step chg_step];
+      try (rewrite Nat.eqb_refl; apply R);
+      intros x Hx; apply Nat.eqb_neq in Hx; rewrite Nat.eqb_sym, Hx; auto.
+Qed.
+
+Lemma sys_remove_repr : forall s c k en chg,
+  repr_all s en chg ->
+  repr_all (sys_remove s c k) (fun x => en_step x (en x) (ERemove c k)) (fun x => chg_step x (chg x) (ERemove c k)).
+Proof.
+  intros s c k en chg H. unfold sys_remove. apply with_cond_cases.
+  - intros Hn x y Hy. cbn [en_step chg_step]. destruct (Nat.eqb_spec c x) as [->|_]; [congruence|]. apply H, Hy.
+  - intros cd Hc. eapply repr_all_upd; try eassumption; cbn [en_step chg_step].
+    + rewrite Nat.eqb_refl. apply cond_repr_remove, H, Hc.
+    + intros x Hx; apply Nat.eqb_neq in Hx; rewrite Nat.eqb_sym, Hx; auto.
+Qed.
+
+Lemma sys_set_enabled_repr : forall fx s c l en chg,
+  repr_all s en chg ->
+  repr_all (sys_set_enabled fx s c (mask_of_list l))
+           (fun x => en_step x (en x) (ESet c l)) (fun x => chg_step x (chg x) (ESet c l)).
+Proof.
+  intros fx s c l en chg H. unfold sys_set_enabled. apply with_cond_cases.
+  - intros Hn x y Hy. cbn [en_step chg_step]. destruct (Nat.eqb_spec c x) as [->|_]; [congruence|]. apply H, Hy.
+  - intros cd Hc. cbn [c_enabled c_changes c_registered].
+    assert (R : forall r, cond_repr (mkCond (mask_of_list l) (c_changes cd) r) (set_of_list l) (chg c))
+      by (intro r; eapply cond_repr_set_enabled, H, Hc).
+    destruct (fx && cond_trigger _); eapply repr_all_upd; try eassumption; cbn [en_step chg_step];
+      try (rewrite Nat.eqb_refl; apply R);
+      intros x Hx; apply Nat.eqb_neq in Hx; rewrite Nat.eqb_sym, Hx; auto.
+Qed.
+
+Lemma sys_register_repr : forall s c ch en chg,
+  repr_all s en chg -> repr_all (sys_register s c ch) en chg.
+Proof.
+  intros s c ch en chg H. unfold sys_register. apply with_cond_cases; [auto|].
+  intros cd Hc. destruct (cond_trigger cd).
+  - eapply repr_all_ext; [eassumption | reflexivity | auto].
+  - eapply repr_all_upd; try eassumption; [|auto]. apply cond_repr_regs, H, Hc.
+Qed.
+
+Lemma repr_all_init : forall nc nch, repr_all (sys_init nc nch) (fun _ _ => true) (fun _ _ => false).
+Proof.
+  intros nc nch c cd H. cbn [sys_init conds] in H. apply nth_error_In, repeat_spec in H. subst.
+  apply cond_repr_init.
+Qed.
+
+Lemma repr_all_trigger : forall s en chg c,
+  repr_all s en chg -> c < length (conds s) -> sys_trigger s c = spec_trigger (en c) (chg c).
+Proof.
+  intros s en chg c H Hc. unfold sys_trigger.
+  destruct (nth_error (conds s) c) eqn:E; [|apply nth_error_None in E; lia].
+  apply cond_repr_trigger, H, E.
+Qed.
+
+(* ================================================================ layer A *)
+Definition d_inv (d : dsys) : Prop := cond_inv (d_sys d) /\ chans_ok (d_sys d).
+
+Lemma dstep_inv : forall fx d o, dop_d6 fx d o = false -> d_inv d -> d_inv (dstep fx d o).
+Proof.
+  intros fx d o Hd [H1 H2]. destruct o; cbn [dstep dop_d6] in *; unfold d_inv; cbn [d_sys].
+  - split; [apply sys_add_inv | apply sys_add_chans_ok]; assumption.
+  - split; [apply sys_remove_inv | apply sys_remove_chans_ok]; assumption.
+  - split; [apply sys_set_enabled_inv | apply sys_set_enabled_chans_ok]; assumption.
+  - split; assumption.
+  - split; assumption.
+  - destruct (holds d ch); cbn [d_sys]; split; try assumption;
+      [apply sys_register_inv | apply sys_register_chans_ok]; assumption.
+  - split; [|apply sys_poll_chans_ok; assumption].
+    eapply cond_inv_same_conds; [|eassumption].
+    unfold sys_poll. destruct (nth_error _ _); [destruct (chan_poll c)|]; reflexivity.
+  - destruct (holds d ch); cbn [d_sys]; split; try assumption.
+    apply sys_drop_chans_ok; assumption.
+Qed.
+
+Lemma d_init_inv : forall nc nch, d_inv (d_init nc nch).
+Proof. intros. split; [apply sys_init_cond_inv | apply sys_init_chans_ok]. Qed.
+
+Theorem drun_inv : forall fx ops d,
+  d_d6_free fx d ops = true -> d_inv d -> d_inv (drun fx d ops).
+Proof.
+  intros fx. induction ops as [|o t IH]; intros d Hf Hd; cbn [drun fold_left]; [assumption|].
+  cbn [d_d6_free] in Hf. apply andb_true_iff in Hf. destruct Hf as [Ho Ht].
+  apply negb_true_iff in Ho. apply IH; [assumption | apply dstep_inv; assumption].
+Qed.
+
+(* the patched code has no excluded history *)
+Lemma d_d6_free_fixed : forall ops d, d_d6_free true d ops = true.
+Proof. induction ops as [|o t IH]; intro d; cbn [d_d6_free]; [reflexivity|]. rewrite IH. destruct o; reflexivity. Qed.
+
+Lemma dstep_repr : forall fx d o en chg,
+  repr_all (d_sys d) en chg ->
+  repr_all (d_sys (dstep fx d o)) (fun x => en_step x (en x) (dop_ev o)) (fun x => chg_step x (chg x) (dop_ev o)).
+Proof.
+  intros fx d o en chg H. destruct o; cbn [dstep dop_ev d_sys].
+  - apply sys_add_repr; assumption.
+  - apply sys_remove_repr; assumption.
+  - apply sys_set_enabled_repr; assumption.
+  - exact H.
+  - exact H.
+  - destruct (holds d ch); cbn [d_sys]; [apply sys_register_repr|]; exact H.
+  - eapply repr_all_ext; [eassumption| |auto].
+    unfold sys_poll. destruct (nth_error _ _); [destruct (chan_poll c)|]; reflexivity.
+  - destruct (holds d ch); cbn [d_sys]; [|exact H]. eapply repr_all_ext; [eassumption|reflexivity|auto].
+Qed.
+
+Lemma drun_repr : forall fx ops d en chg,
+  repr_all (d_sys d) en chg ->
+  repr_all (d_sys (drun fx d ops))
+           (fun x => fold_left (en_step x) (map dop_ev ops) (en x))
+           (fun x => fold_left (chg_step x) (map dop_ev ops) (chg x)).
+Proof.
+  intros fx. induction ops as [|o t IH]; intros d en chg H; cbn [drun fold_left map]; [exact H|].
+  apply (IH (dstep fx d o) (fun x => en_step x (en x) (dop_ev o)) (fun x => chg_step x (chg x) (dop_ev o))).
+  apply dstep_repr. exact H.
+Qed.
+
+Lemma dstep_conds_length : forall fx d o, length (conds (d_sys (dstep fx d o))) = length (conds (d_sys d)).
+Proof.
+  intros fx d o. destruct o; cbn [dstep d_sys]; try reflexivity.
+  - apply (sys_add_frame (d_sys d) c k).
+  - apply (sys_remove_frame (d_sys d) c k).
+  - apply (sys_set_enabled_frame fx (d_sys d) c (mask_of_list l)).
+  - destruct (holds d ch); [apply (sys_register_frame (d_sys d) c ch) | reflexivity].
+  - apply (sys_poll_frame (d_sys d) ch).
+  - destruct (holds d ch); reflexivity.
+Qed.
+
+Lemma drun_conds_length : forall fx ops d, length (conds (d_sys (drun fx d ops))) = length (conds (d_sys d)).
+Proof.
+  intros fx. induction ops as [|o t IH]; intro d; cbn [drun fold_left]; [reflexivity|].
+  fold (drun fx (dstep fx d o) t). rewrite IH. apply dstep_conds_length.
+Qed.
+
+(* trigger value = "an enabled status has changed since it was last read", for
+   every history of every condition (including the D6 histories) *)
+Theorem d_trigger_history : forall fx nc nch ops c, c < nc ->
+  sys_trigger (d_sys (drun fx (d_init nc nch) ops)) c =
+  spec_trigger (hist_en (map dop_ev ops) c) (hist_chg (map dop_ev ops) c).
+Proof.
+  intros fx nc nch ops c Hc.
+  pose proof (drun_repr fx ops (d_init nc nch) _ _ (repr_all_init nc nch)) as H.
+  apply (repr_all_trigger _ _ _ c H).
+  rewrite drun_conds_length. cbn. rewrite repeat_length. exact Hc.
+Qed.
